@@ -2,7 +2,7 @@
 from .nlpprop import NlpProp, TRUSTED, ASSUMPTIONS
 from .. import engine
 
-OPTS = {"methods": ["MS", "SS"], "intgs": ["rk", "expl_euler"], "N_max": 4, "M_max": 3,
+OPTS = {"methods": ["MS", "SS", "DC"], "deg_max": 4, "intgs": ["rk", "expl_euler"], "N_max": 4, "M_max": 3,
         "constraints": False, "no_min": 1, "no_max": 4, "intc": True, "p_quad": 0.3}
 OPTS_T = dict(OPTS, N_max=6, M_max=4)
 
@@ -20,12 +20,59 @@ def extra_judge(case, mvals, r):
     return []
 
 
-P = NlpProp("C05", OPTS, OPTS_T, judge_kinds=[], judge_obj=True, nontrivial=nontrivial,
+def const_integral_cases():
+    """integral of the constant 1 must be T for every collocation scheme (quadrature weights
+    integrate constants exactly)"""
+    out = []
+    for d in range(1, 6):
+        for sch in ("radau", "legendre"):
+            c = {"id": "C05-const-%s-%d" % (sch, d), "states": [{"rows": 1, "cols": 1}], "controls": [],
+                 "algebraics": [], "params": [], "vars": [], "discrete": False,
+                 "ode": [["c", 0, 1]], "quad": [["+", ["c", 1, 1], ["*", ["c", 0, 1], ["s", "x", 0]]]],
+                 "n_explicit_quad": 0, "alg": [],
+                 "t0": {"fixed": [0, 1]}, "T": {"fixed": [3, 2]}, "param_values": {"p": [], "pc": [[], []], "pp": [[], [], []]},
+                 "constraints": [], "objective": [["int", 0]],
+                 "method": {"kind": "DC", "N": 2, "M": 2, "intg": "rk", "degree": d, "scheme": sch,
+                            "grid": {"class": "Uniform"}}, "_const_integral": True}
+            pt = {"X": [[[1, 1]], [[1, 2]], [[0, 1]]], "U": [[], []], "V": [], "VC": [[], []], "VP": [[], [], []],
+                  "P": [], "PC": [[], []], "PP": [[], [], []], "T": [3, 2], "t0": [0, 1],
+                  "Xi": [[[[1, 4]]], [[[1, 4]]]],
+                  "Xc": [[[[[1, 8]] for _ in range(d)] for _ in range(2)] for _ in range(2)],
+                  "Zc": [[[[] for _ in range(d)] for _ in range(2)] for _ in range(2)]}
+            out.append((c, [pt, pt, pt]))
+    return out
+
+
+def classify(case, d):
+    m = case["method"]
+    if case.get("_const_integral") and m.get("scheme") == "radau" and m.get("degree") == 1:
+        return "F4-radau-degree1-quadrature-weights"
+    return None
+
+
+class C05Prop(NlpProp):
+    def corpus(self):
+        return NlpProp.corpus(self) + const_integral_cases()
+
+    def judge(self, cps, rr, mv):
+        dis, nontriv, dist, skipped = NlpProp.judge(self, cps, rr, mv)
+        for i, (case, pts) in enumerate(cps):
+            if case.get("_const_integral") and "objs" in rr[i]:
+                T = 1.5
+                if abs(rr[i]["objs"][0] - T) > 1e-9:
+                    dis.append({"property": "C05", "case": case, "points": pts[:1],
+                                "what": [{"what": "the collocation quadrature does not integrate the constant 1 exactly",
+                                          "integral_of_1": rr[i]["objs"][0], "horizon_T": T}],
+                                "finding_key": classify(case, None)})
+        return dis, nontriv, dist, skipped
+
+
+P = C05Prop("C05", OPTS, OPTS_T, classify=classify, judge_kinds=[], judge_obj=True, nontrivial=nontrivial,
             extra=(engine.extras_objvalue, engine.extra_objvalue), extra_judge=extra_judge,
             rule="random OCPs with 1-4 objective terms drawn from at_t0, at_tf, integral, sum, sum(include_last), "
                  "integral(grid='control'), each optionally multiplied/added with global parameters, variables, T, t0 or "
                  "squared; integrands/summands nonlinear in x,u,t,p,v (per-interval too); explicit quadrature states; "
-                 "x {MS,SS} x {rk,expl_euler} x N,M x grids x fixed/free/parametric horizon.  Compared: opti.f and "
+                 "x {MS,SS} x {rk,expl_euler} and DirectCollocation degree 1..4 radau|legendre x N,M x grids x fixed/free/parametric horizon; plus, for every (degree 1..5, scheme), integral(1) must equal T.  Compared: opti.f and "
                  "ocp.value(ocp.objective) against the model's objective at every decision point.  non-trivial = has "
                  "objective terms; distinct by hash of the case")
 run, replay = P.run, P.replay
